@@ -130,9 +130,13 @@ def evaluate(ctx, sc):
                 elif e["c"] == "PolyATrimmer":
                     pa[side] += len(e["i"][1]) - len(e["o"][1])
         if "-q" in sc.mods or "--nextseq-trim" in sc.mods:
+            if bp["quality_trimmed"] is None:
+                viol("quality-trimmed-sum", f"quality trimming was asked for but quality_trimmed is null (per-read sums {qt}, quality_trimmed_read1={bp['quality_trimmed_read1']})")
             if nz(bp["quality_trimmed_read1"]) != qt[0] or nz(bp["quality_trimmed_read2"]) != qt[1] or nz(bp["quality_trimmed"]) != qt[0] + qt[1]:
                 viol("quality-trimmed-sum", f"quality_trimmed={bp['quality_trimmed']}/{bp['quality_trimmed_read1']}/{bp['quality_trimmed_read2']}, per-read sums {qt}")
         if "--poly-a" in sc.mods:
+            if bp["poly_a_trimmed"] is None or nz(bp["poly_a_trimmed"]) != pa[0] + pa[1]:
+                viol("poly-a-sum", f"poly_a_trimmed={bp['poly_a_trimmed']}, per-read sums {pa}")
             if nz(bp["poly_a_trimmed_read1"]) != pa[0] or nz(bp["poly_a_trimmed_read2"]) != pa[1]:
                 viol("poly-a-sum", f"poly_a_trimmed={bp['poly_a_trimmed_read1']}/{bp['poly_a_trimmed_read2']}, per-read sums {pa}")
         ctx.count("runs_with_trace_sums")
